@@ -319,6 +319,11 @@ class CallMixin:
             if len(args) != 1 or kwargs:
                 raise Unsupported("symbolic function arity")
             return f[lift(args[0], f.ty.arg)]
+        if isinstance(f, SV) and isinstance(f.ty, TRef):
+            m = self.find_method_for_type(f.ty, "__call__")
+            if m:
+                return self.call_function(m[0], [f] + args, kwargs, node, cls=m[1])
+            return self.call_extern(f"ext:{f.ty.cls}.__call__", [f] + args, kwargs, node, None)
         if isinstance(f, SV) and isinstance(f.ty, TOpt):
             self.oblige("attr", f.ty.is_some(f), node, "call of None")
             self.assume(f.ty.is_some(f))
